@@ -392,3 +392,5 @@ def check_integration(case: dict[str, Any], rec: Any) -> None:
 
 
 FINDINGS: dict[str, Any] = {}
+
+LEVEL_NOTE += ' Rounds 13-14: a battery silent a second time at the checkpoint.'
